@@ -143,6 +143,34 @@ def run(ctx, idx):
             ctx.violate("C12.a", con, K.rel(ac), r3[0].line, bad)
         else:
             ctx.hold("C12.a", con, K.rel(ac), r3[0].line, "every given argument is tested against the declared inputs before the command is stored")
+    # every given argument reaches the command: what counted as "given" for the missing-parameter gate must become an argument
+    con = "%s::every-argument-kept" % ac.key
+    ctor = [n for n in cfg.find("call") if any(s_.ast is not None and any(n.ast is x for x in ast.walk(s_.meta.get("value") or s_.ast)) for s_ in stores)]
+    ctor_calls = [n for n in own_nodes(ac.node) if isinstance(n, ast.Assign) and any(isinstance(t, ast.Subscript) and self_attr(t.value, sn) == attr for t in n.targets) and isinstance(n.value, ast.Call)]
+    listnames = set()
+    for a_ in ctor_calls:
+        for x in list(a_.value.args) + [k.value for k in a_.value.keywords]:
+            if isinstance(x, ast.Name):
+                listnames.add(x.id)
+    kept = None
+    for h in cfg.find("iter"):
+        if h.meta.get("comp") or "arguments" not in K.src(h.meta["iter"]):
+            continue
+        body_in = [m for m, l in h.succ if l == "loop"]
+        appends = {n for n in cfg.reachable(body_in, avoid={h}) if n.kind == "call" and isinstance(n.ast.func, ast.Attribute) and n.ast.func.attr == "append" and isinstance(n.ast.func.value, ast.Name) and n.ast.func.value.id in listnames}
+        if not appends:
+            continue
+        kept = all(cfg.must_pass_through(m, h, appends) for m in body_in)
+        line_ = h.line
+    if kept is None:
+        for n in own_nodes(ac.node):
+            if isinstance(n, ast.Assign) and len(n.targets) == 1 and isinstance(n.targets[0], ast.Name) and n.targets[0].id in listnames and isinstance(n.value, ast.ListComp) and "arguments" in K.src(n.value.generators[0].iter):
+                kept = not n.value.generators[0].ifs and len(n.value.generators) == 1
+                line_ = n.lineno
+    if kept is None:
+        raise AnalysisError("C12.a: cannot find where add_command turns the given arguments into the command's argument list")
+    ctx.ob("C12.a", con, K.rel(ac), line_, kept, "every entry of the given arguments is appended to the command's argument list (or the loop raises)" if kept else
+           "an iteration of the loop over the given arguments can finish without adding the argument: a value that counted as given for the missing-parameter gate is dropped, so the command is accepted here and fails (MissingParameters) only when it runs, after other commands have executed")
     for rz, err, want in ((r1, "DuplicateResult", lambda e: e.args and isinstance(e.args[0], ast.Name) and e.args[0].id in params),
                           (r2, "MissingParameters", lambda e: len(e.args) >= 2 and isinstance(e.args[1], ast.Name)),
                           (r3, "NoSuchParameter", lambda e: len(e.args) >= 2 and isinstance(e.args[1], ast.Name))):
